@@ -578,11 +578,18 @@ def run_multikey_part(ctx):
     nrand = ctx.n(2000, 100000)
     nchunks = ctx.n(8, 64)
     tasks = [('random', (ctx.seed, c, nrand // nchunks, 40, ctx.driver_ok)) for c in range(nchunks)]
-    lengths = {'multi+unique': ctx.n(5, 6), 'oneN+unique+multi': ctx.n(4, 5), 'unique+unique': ctx.n(4, 6)}
+    lengths = {'multi+unique': ctx.n(4, 6), 'oneN+unique+multi': ctx.n(4, 5), 'unique+unique': ctx.n(4, 6)}
     for cfg, lmax in lengths.items():
         for length in range(1, lmax + 1):
             for first in range(len(EXH_ALPHABET)):
                 tasks.append(('exh', (cfg, length, first, ctx.driver_ok)))
+    extra = ''
+    if ctx.tier == 'quick':
+        # one level deeper for the sequences that start with an insertion (first rejected re-index needs 5 ops)
+        for first, (k, _) in enumerate(EXH_ALPHABET):
+            if k == 'add':
+                tasks.append(('exh', ('multi+unique', 5, first, ctx.driver_ok)))
+        extra = '; multi+unique additionally every sequence of length 5 that starts with an add'
     # big tasks first
     tasks.sort(key=lambda t: -(t[1][1] if t[0] == 'exh' else 3))
     with multiprocessing.Pool(min(8, os.cpu_count() or 2)) as pool:
@@ -597,7 +604,7 @@ def run_multikey_part(ctx):
     ctx.exhaustive = True
     ctx.notes['exhaustive_scope'] = {'configurations': {k: {'defs': v[0], 'max_length': lengths[k]} for k, v in EXH_CONFIGS.items()},
                                      'alphabet': [f'{k}{o or ""}' for k, o in EXH_ALPHABET], 'sequences': nexh,
-                                     'note': 'every sequence over the alphabet up to max_length, 3 objects with 2 attribute assignments each (flip = attribute write without re-index)'}
+                                     'note': 'every sequence over the alphabet up to max_length, 3 objects with 2 attribute assignments each (flip = attribute write without re-index)' + extra}
     ctx.notes['random_sequences'] = nrand
 
 
